@@ -166,6 +166,11 @@ def snap_instance(inst):
     fp.append(repr(inst.job_durations))
     fp.append(repr(inst.machine_loads))
     fp.append(inst.total_duration)
+    fp.append(arr(inst.durations_matrix_array))
+    fp.append(arr(inst.machines_matrix_array))
+    fp.append(repr(inst.max_duration))
+    fp.append(repr(inst.max_duration_per_job))
+    fp.append(repr(inst.max_duration_per_machine))
     return tuple(fp)
 
 
